@@ -87,6 +87,8 @@ type world struct {
 
 	layout0  string
 	regions0 int
+	probeMu  sync.Mutex
+	probes   int
 }
 
 // key resolves the "@<i>:" notation of scenario keys.
@@ -111,8 +113,6 @@ func (w *world) border(s SplitSpec) []byte {
 		switch s.Key {
 		case "mode":
 			return []byte{w.mode}
-		case "p3":
-			return append([]byte{}, w.kss[ksA].Prefix[:3]...)
 		case "end2":
 			return append([]byte{}, w.kss[ksB2].End...)
 		}
@@ -214,11 +214,13 @@ func newWorld(s *simkit.Sim, sc *Scenario) (*world, error) {
 	w.net.RandomFaults = sc.Net.Random
 	w.net.FaultRate = sc.Net.Rate
 	w.net.FaultKinds = sc.Net.Kinds
+	// UnsafeDestroyRange is addressed to a store, not to a region: no region error can answer it.
+	// The dead writer's requests are never disturbed except by its planned death.
+	wc := -1
 	if sc.Writer != nil {
-		// the writer's requests are never disturbed except by its planned death
-		wc := sc.Writer.Client
-		w.net.FaultFilter = func(r *simkit.RPCRecord) bool { return r.Client != wc }
+		wc = sc.Writer.Client
 	}
+	w.net.FaultFilter = func(r *simkit.RPCRecord) bool { return r.Client != wc && r.Type != tikvrpc.CmdUnsafeDestroyRange }
 	w.mon = newMonitor(w)
 
 	metas := map[string]*keyspacepb.KeyspaceMeta{}
@@ -280,10 +282,13 @@ func (w *world) placeSentinels() {
 		add(append([]byte{}, a.End...), "SENTINEL-at-A-end") // exactly A's end bound
 	}
 	add([]byte("a"), "SENTINEL-v1-a")
-	add([]byte{w.mode}, "SENTINEL-mode-byte")
-	add(append([]byte{}, a.Prefix[:3]...), "SENTINEL-short-prefix")
+	// (no record shorter than a four-byte prefix under the mode byte: such a key cannot exist in an
+	// API v2 store, and for a keyspace whose end bound ends in zero bytes it would sort inside the
+	// byte range [prefix, end) without carrying the prefix)
 	add([]byte{w.mode, 0xff, 0xff, 0xff, 0xff, 0xff}, "SENTINEL-after-all-keyspaces")
-	add([]byte{w.mode + 1}, "SENTINEL-next-mode")
+	// (not the bare next mode byte: "y" sorts inside [prefix, end) of keyspace 0xFFFFFF, whose end
+	// bound is "y\x00\x00\x00", without carrying its prefix - see CHECK.md, observations)
+	add([]byte{w.mode + 1, 0, 0, 0}, "SENTINEL-next-mode")
 	for _, s := range w.sentinels {
 		switch {
 		case w.sc.Kind == "raw":
@@ -550,7 +555,7 @@ func (f *front) session(addr string, req *tikvrpc.Request) (*mocktikv.Session, *
 
 func (f *front) serve(ctx context.Context, addr string, req *tikvrpc.Request, timeout time.Duration) (*tikvrpc.Response, error) {
 	f.n++
-	if f.w.sc.EpochAllRate > 0 && req.Type != tikvrpc.CmdSplitRegion && f.h.Float(fmt.Sprintf("all%d", f.n)) < f.w.sc.EpochAllRate {
+	if f.w.sc.EpochAllRate > 0 && req.Type != tikvrpc.CmdSplitRegion && req.Type != tikvrpc.CmdUnsafeDestroyRange && f.h.Float(fmt.Sprintf("all%d", f.n)) < f.w.sc.EpochAllRate {
 		var cur []*metapb.Region
 		cur = append(cur, f.w.topo.sortedRegions()...)
 		f.w.sim.Count("fault.epoch-not-match-all-regions")
@@ -558,6 +563,22 @@ func (f *front) serve(ctx context.Context, addr string, req *tikvrpc.Request, ti
 	}
 	if req.Type == tikvrpc.CmdSplitRegion {
 		return f.serveSplit(addr, req)
+	}
+	if req.Type == tikvrpc.CmdUnsafeDestroyRange {
+		// sent to every store, no region context; the mock panics "unimplemented". Every record and
+		// lock of [start, end) is removed from the store's engine.
+		r := req.UnsafeDestroyRange()
+		switch {
+		case f.raw:
+			f.w.mvcc.RawDeleteRange(cfName, r.StartKey, r.EndKey)
+		case f.w.ref != nil:
+			f.w.ref.Store.DeleteRange(r.StartKey, r.EndKey)
+		default:
+			if err := f.w.mvcc.DeleteRange(r.StartKey, r.EndKey); err != nil {
+				return &tikvrpc.Response{Resp: &kvrpcpb.UnsafeDestroyRangeResponse{Error: err.Error()}}, nil
+			}
+		}
+		return &tikvrpc.Response{Resp: &kvrpcpb.UnsafeDestroyRangeResponse{}}, nil
 	}
 	if f.raw {
 		return f.serveRaw(addr, req)
@@ -569,6 +590,29 @@ func (f *front) serve(ctx context.Context, addr string, req *tikvrpc.Request, ti
 		r := req.Scan()
 		if r.Reverse && len(r.StartKey) > 0 && bytes.Equal(r.StartKey, r.EndKey) {
 			return &tikvrpc.Response{Resp: &kvrpcpb.ScanResponse{}}, nil
+		}
+	}
+	if req.Type == tikvrpc.CmdPessimisticRollback && f.w.ref == nil && len(req.PessimisticRollback().Keys) == 0 {
+		// Region-level pessimistic rollback (no keys: "every pessimistic lock of the transaction in this
+		// region"). The mock's handler hands the region's memcomparable-encoded bounds to a store
+		// method that takes them as raw keys (rpc.go handleKvPessimisticRollback), so with a bounded
+		// region the scan starts behind the region's first key and a lock sitting there is never
+		// removed: the resolver retries for ever. The key list is filled in here from the store's locks.
+		if sess, re, err := f.session(addr, req); err == nil && re == nil {
+			start, end := sess.VerifRegionRange()
+			r := *req.PessimisticRollback()
+			for _, l := range f.w.mvcc.VerifDumpLocks() {
+				if l.LockType == kvrpcpb.Op_PessimisticLock && l.LockVersion == r.StartVersion && l.LockForUpdateTs <= r.ForUpdateTs && inRange(start, end, l.Key) {
+					r.Keys = append(r.Keys, l.Key)
+				}
+			}
+			if len(r.Keys) == 0 {
+				return &tikvrpc.Response{Resp: &kvrpcpb.PessimisticRollbackResponse{}}, nil
+			}
+			rc := *req
+			rc.Req = &r
+			f.w.sim.Count("front.region-level-pessimistic-rollback")
+			return f.inner.SendRequest(ctx, addr, &rc, timeout)
 		}
 	}
 	return f.inner.SendRequest(ctx, addr, req, timeout)
